@@ -28,12 +28,15 @@ import os
 import pickle
 import re
 import shutil
+import urllib.parse
 
 from vlib import impl
 
 NS_TOKEN = "http://radicale.org/ns/sync/"
-HREFS = ["a.ics", "b.ics", "c.ics"]
-UIDS = ["a", "b", "c"]
+# names a client may legitimately use: a literal percent escape, space, '+', non-ASCII, '%25' -- the request line
+# carries them percent-encoded (PATH_INFO is the decoded form), multistatus hrefs come back percent-encoded
+HREFS = ["a.ics", "plan%41.ics", "c d+\u00e9%25.ics"]
+UIDS = ["a", "plan%41", "c d+\u00e9%25"]
 NCOLL = 2
 T0 = 1_000_000          # logical start time (real mtimes are > 1e9, so "written during this request" is recognisable)
 REAL = 1e9
@@ -62,39 +65,115 @@ def calendar_text(items):
     return body + "END:VCALENDAR\r\n"
 
 
+ERRNOS = {"EACCES": 13, "ENOSPC": 28, "EROFS": 30, "EIO": 5}
+FAULT_CALLS = ["mkdir", "open", "write", "replace"]
+
+
 class TokenWriteFault:
-    """While active, the `pickle.dump` the sync module sees (only the token-state write uses it) fails once with
-    ENOSPC: mode "enospc" before a byte is written, mode "trunc" after half of the pickle reached the file."""
+    """While active, ONE system-level step of writing the token-state file fails.
+    mode "enospc" / "trunc": the `pickle.dump` the sync module sees raises ENOSPC before a byte / after half of the
+    pickle was written.  mode "<call>:<ERRNO>" with call in mkdir | open | write | replace and ERRNO in ERRNOS: the
+    first such call on a path below a `sync-token` folder raises OSError(errno) (PermissionError for EACCES)."""
 
     def __init__(self, mode):
         self.mode = mode
         self.fired = False
+        self.undo = []
+
+    def _err(self, code):
+        return OSError(code, os.strerror(code) + " (injected)")
 
     def __enter__(self):
         import errno
+        import radicale.storage.multifilesystem.base as base_mod
         import radicale.storage.multifilesystem.sync as sync_mod
-        self.sync_mod = sync_mod
-        self.real = sync_mod.pickle
         outer = self
+        if ":" not in self.mode:
+            real = sync_mod.pickle
 
-        class Proxy:
-            def __getattr__(self, name):
-                return getattr(outer.real, name)
+            class Proxy:
+                def __getattr__(self, name):
+                    return getattr(real, name)
 
-            def dump(self, obj, f, *a, **kw):
-                if outer.fired:
-                    return outer.real.dump(obj, f, *a, **kw)
-                outer.fired = True
-                if outer.mode == "trunc":
-                    data = outer.real.dumps(obj)
-                    f.write(data[:max(1, len(data) // 2)])
-                    f.flush()
-                raise OSError(errno.ENOSPC, "No space left on device (injected)")
-        sync_mod.pickle = Proxy()
+                def dump(self, obj, f, *a, **kw):
+                    if outer.fired:
+                        return real.dump(obj, f, *a, **kw)
+                    outer.fired = True
+                    if outer.mode == "trunc":
+                        data = real.dumps(obj)
+                        f.write(data[:max(1, len(data) // 2)])
+                        f.flush()
+                    raise outer._err(errno.ENOSPC)
+            sync_mod.pickle = Proxy()
+            self.undo.append(lambda: setattr(sync_mod, "pickle", real))
+            return self
+        call, name = self.mode.split(":")
+        code = ERRNOS[name]
+
+        def hit(path):
+            return (not outer.fired) and "sync-token" in str(path).split(os.sep)
+
+        if call == "mkdir":
+            real_mkdir = os.mkdir
+
+            def mkdir(path, *a, **kw):
+                if hit(path):
+                    outer.fired = True
+                    raise outer._err(code)
+                return real_mkdir(path, *a, **kw)
+            os.mkdir = mkdir
+            self.undo.append(lambda: setattr(os, "mkdir", real_mkdir))
+        elif call == "replace":
+            real_replace = os.replace
+
+            def replace(src, dst, *a, **kw):
+                if hit(dst):
+                    outer.fired = True
+                    raise outer._err(code)
+                return real_replace(src, dst, *a, **kw)
+            os.replace = replace
+            self.undo.append(lambda: setattr(os, "replace", real_replace))
+        else:
+            import builtins
+
+            class FileProxy:
+                def __init__(self, f):
+                    self._f = f
+
+                def __getattr__(self, name):
+                    return getattr(self._f, name)
+
+                def __enter__(self):
+                    self._f.__enter__()
+                    return self
+
+                def __exit__(self, *a):
+                    return self._f.__exit__(*a)
+
+                def write(self, data):
+                    if not outer.fired:
+                        outer.fired = True
+                        raise outer._err(code)
+                    return self._f.write(data)
+
+            def fake_open(path, mode="r", *a, **kw):
+                if "w" in mode and hit(path):
+                    if call == "open":
+                        outer.fired = True
+                        raise outer._err(code)
+                    return FileProxy(builtins.open(path, mode, *a, **kw))
+                return builtins.open(path, mode, *a, **kw)
+            for mod in (base_mod, sync_mod):
+                had = "open" in vars(mod)
+                old = vars(mod).get("open")
+                mod.open = fake_open
+                self.undo.append((lambda m, h, o: (lambda: setattr(m, "open", o) if h else delattr(m, "open")))(mod, had, old))
         return self
 
     def __exit__(self, *a):
-        self.sync_mod.pickle = self.real
+        for u in reversed(self.undo):
+            u()
+        self.undo = []
 
 
 class World:
@@ -117,6 +196,7 @@ class World:
                         "use_cache_subfolder_for_item": str(bool(sub_item)),
                         "use_cache_subfolder_for_history": str(bool(sub_hist)),
                         "use_cache_subfolder_for_synctoken": str(bool(sub_tok))}})
+        self.last_fault = None
         self.tokens = []          # token strings by first appearance
         self.etags = []           # etag strings by first appearance  (content ids)
         self.hetags = []          # history etag strings by first appearance
@@ -141,8 +221,11 @@ class World:
     def href_index(self, c, href):
         """index of the item an emitted href denotes in collection c: it must be exactly base prefix + path"""
         want = self.base + self.cpath(c)
-        if href.startswith(want) and href[len(want):] in HREFS:
-            return HREFS.index(href[len(want):])
+        if href.startswith(want):
+            name = urllib.parse.unquote(href[len(want):])
+            # the emitted form must be the canonical encoding of the name (what PROPFIND and REPORT both use)
+            if name in HREFS and href[len(want):] == urllib.parse.quote(name):
+                return HREFS.index(name)
         return -99
 
     def cpath(self, c):
@@ -330,7 +413,7 @@ class World:
         if k == "move":
             _, c, h, c2, h2 = op
             st, _, _ = self.req("MOVE", self.cpath(c) + HREFS[h],
-                                HTTP_DESTINATION="http://127.0.0.1" + self.base + self.cpath(c2) + HREFS[h2],
+                                HTTP_DESTINATION="http://127.0.0.1" + self.base + self.cpath(c2) + urllib.parse.quote(HREFS[h2]),
                                 HTTP_OVERWRITE="T")
             return st in (201, 204), ("status", st)
         if k == "replace":
@@ -361,6 +444,7 @@ class World:
                 with TokenWriteFault(op[3]) as fault:
                     r = self.sync_report(c, self.token_text(tok))
                 self.normalise()
+                self.last_fault = dict(mode=op[3], fired=fault.fired, answered=r[0])
                 if r[0] == "failed" and not fault.fired:
                     r = ("error", r[1], "5xx without an injected fault")
             else:
@@ -371,7 +455,8 @@ class World:
                 raw = sorted(r[2].items())
                 delta = sorted((self.href_index(c, h), (None if e is None else self.cid(e)) if not isinstance(e, tuple) else e)
                                for h, e in raw)
-                return True, ("delta", self.tid(r[1]), delta, raw)
+                fired = bool(k == "syncfail" and self.last_fault and self.last_fault["fired"])
+                return True, ("delta", self.tid(r[1]), delta, raw, fired)
             return True, r
         if k == "ptok":
             r = self.propfind_token(op[1])
@@ -392,6 +477,7 @@ class Monitor:
         self.touched = {}     # (c, token id) -> logical time the server last wrote/touched the token's file
         self.reset = {}       # (c, token id) -> True when collection / cache folder was replaced or deleted since
         self.current = {}     # c -> token id most recently returned, valid while the collection is unchanged
+        self.tolerated = 0    # answers 207 after an injected PermissionError during the token write
         self.errors = []
 
     def err(self, what):
@@ -442,7 +528,7 @@ class Monitor:
             return
         if result[0] != "delta":
             return
-        _, t_new, delta, raw = result
+        _, t_new, delta, raw = result[:4]
         truth = w.view(c)
         if truth is None:
             self.err("sync accepted on a collection PROPFIND does not find")
@@ -475,6 +561,13 @@ class Monitor:
                      % (t_new, self.current[c]))
         self._issued(c, t_new, presented)
         self.held[(c, t_new)] = truth
+        if k == "syncfail" and len(result) > 4 and result[4]:
+            # The request answered 207 although a step of the token write failed.  sync.py deliberately tolerates
+            # PermissionError there ("Race: Other processes might have created and locked the file"): such a token
+            # may be unknown afterwards -- counted, not judged.  For every other errno the token must keep working.
+            if op[3].endswith(":EACCES"):
+                self.reset[(c, t_new)] = True
+                self.tolerated += 1
 
     def _issued(self, c, t, presented):
         w = self.w
@@ -621,7 +714,9 @@ def gen_history(rng, n_ops, max_age, max_tokens=5):
                 tok = ["unknown"]
             if rng.random() < 0.07:
                 # the token write of this REPORT fails; afterwards the same state is synced again and changed
-                ops.append(["syncfail", c, tok, rng.choice(["enospc", "trunc"])])
+                mode = rng.choice(["enospc", "trunc"]) if rng.random() < 0.3 else "%s:%s" % (
+                    rng.choice(FAULT_CALLS), rng.choice(["ENOSPC", "EROFS", "EIO"]))
+                ops.append(["syncfail", c, tok, mode])
                 if rng.random() < 0.8:
                     ops.append(["sync", c, None])
                     h = rng.randrange(len(HREFS))
@@ -705,7 +800,7 @@ def run_history(cfg, ops, monitor=True, dumps=True):
             d = w.dump() if dumps else None
             trace.append((op, accepted, result, d))
         ntok = len(w.tokens)
-    return dict(trace=trace, errors=errors, ntok=ntok)
+    return dict(trace=trace, errors=errors, ntok=ntok, tolerated=mon.tolerated if mon else 0)
 
 
 # ---------------------------------------------------------------------------------- encoding for the Coq model
@@ -798,6 +893,9 @@ def model_case(cfg, trace, fixed=True):
     for op, accepted, result, dump in trace:
         if not accepted:
             continue
+        if (op[0] == "syncfail" and op[3].endswith(":EACCES") and result and result[0] == "delta" and len(result) > 4
+                and result[4]):
+            break              # tolerated PermissionError: token handed out without a file; outside the model
         iops.append(iop_text(op, result))
         obs.append(ser_result(op, result) + ser_dump(dump))
     return "(%s, [%s])" % (cfg_text(cfg, fixed), "; ".join(iops)), obs
